@@ -208,8 +208,10 @@ type c14Flavour struct {
 
 var c14Flavours = []c14Flavour{
 	{"S", adapt.TableSpec{Name: "tbl14", Hash: "h", Billing: "PAY_PER_REQUEST"}, val.Item{"h": val.Str("k")}},
-	{"B+B", adapt.TableSpec{Name: "tbl14", Hash: "h", HashT: "B", Range: "r", RangeT: "B", Billing: "PAY_PER_REQUEST"}, val.Item{"h": val.Bin("\x01\x02\x03"), "r": val.Bin("\x0a\x0b")}},
-	{"N+S", adapt.TableSpec{Name: "tbl14", Hash: "h", HashT: "N", Range: "r", Billing: "PAY_PER_REQUEST"}, val.Item{"h": val.Num("42"), "r": val.Str("rk")}},
+	// (the hash+range flavours also have a local and a global index over attributes the items do not carry: some
+	// code only runs for tables that have an item collection)
+	{"B+B", adapt.TableSpec{Name: "tbl14", Hash: "h", HashT: "B", Range: "r", RangeT: "B", Billing: "PAY_PER_REQUEST", Indexes: []adapt.IndexSpec{{Name: "lsi1", Hash: "h", HashT: "B", Range: "lsik", Local: true}}}, val.Item{"h": val.Bin("\x01\x02\x03"), "r": val.Bin("\x0a\x0b")}},
+	{"N+S", adapt.TableSpec{Name: "tbl14", Hash: "h", HashT: "N", Range: "r", Billing: "PAY_PER_REQUEST", Indexes: []adapt.IndexSpec{{Name: "lsi1", Hash: "h", HashT: "N", Range: "lsik", Local: true}, {Name: "gsi1", Hash: "gsik"}}}, val.Item{"h": val.Num("42"), "r": val.Str("rk")}},
 }
 
 // the flavour of the running case (cases of one worker process run one after another)
@@ -493,6 +495,41 @@ func c14Ops() []c14Op {
 				return nil, nil, false
 			}
 			return out.Attributes, it, true
+		}},
+		{"output/PutItem(whole output, metrics requested)", func(ad string, cl adapt.Client, it val.Item) (interface{}, val.Item, bool) {
+			// everything the output carries - attributes, item collection metrics (their key!), consumed capacity
+			if ad == "v1" {
+				out, err := cl.Raw().(*v1client.Client).PutItem(&v1ddb.PutItemInput{TableName: aws.String("tbl14"), Item: adapt.ItemToV1(it), ReturnValues: aws.String("ALL_OLD"),
+					ReturnItemCollectionMetrics: aws.String("SIZE"), ReturnConsumedCapacity: aws.String("TOTAL")})
+				if err != nil || out == nil {
+					return nil, nil, false
+				}
+				return out, it, true
+			}
+			out, err := cl.Raw().(*v2client.Client).PutItem(ctx, &v2ddb.PutItemInput{TableName: v2aws.String("tbl14"), Item: adapt.ItemToV2(it), ReturnValues: "ALL_OLD",
+				ReturnItemCollectionMetrics: "SIZE", ReturnConsumedCapacity: "TOTAL"})
+			if err != nil || out == nil {
+				return nil, nil, false
+			}
+			return out, it, true
+		}},
+		{"output/UpdateItem(whole output, metrics requested)", func(ad string, cl adapt.Client, it val.Item) (interface{}, val.Item, bool) {
+			exp := it.Clone()
+			exp["touched"] = val.Str("yes")
+			if ad == "v1" {
+				out, err := cl.Raw().(*v1client.Client).UpdateItem(&v1ddb.UpdateItemInput{TableName: aws.String("tbl14"), Key: adapt.ItemToV1(c14Key), UpdateExpression: aws.String("SET touched = :t"),
+					ExpressionAttributeValues: adapt.ItemToV1(val.Item{":t": val.Str("yes")}), ReturnValues: aws.String("ALL_NEW"), ReturnItemCollectionMetrics: aws.String("SIZE"), ReturnConsumedCapacity: aws.String("INDEXES")})
+				if err != nil || out == nil {
+					return nil, nil, false
+				}
+				return out, exp, true
+			}
+			out, err := cl.Raw().(*v2client.Client).UpdateItem(ctx, &v2ddb.UpdateItemInput{TableName: v2aws.String("tbl14"), Key: adapt.ItemToV2(c14Key), UpdateExpression: v2aws.String("SET touched = :t"),
+				ExpressionAttributeValues: adapt.ItemToV2(val.Item{":t": val.Str("yes")}), ReturnValues: "ALL_NEW", ReturnItemCollectionMetrics: "SIZE", ReturnConsumedCapacity: "INDEXES"})
+			if err != nil || out == nil {
+				return nil, nil, false
+			}
+			return out, exp, true
 		}},
 		{"output/UpdateItem.Attributes", func(ad string, cl adapt.Client, it val.Item) (interface{}, val.Item, bool) {
 			exp := it.Clone()
